@@ -408,6 +408,43 @@ theorem file_config_new_eq (doc : List (String × String)) (ncpu : Nat) (path : 
   | nil => exact absurd rfl hne
   | cons kv l => rfl
 
+/-- the loader's reading of the keys, in general: folding the loader's step over the entries is folding the model's
+    step over the entries with every key replaced by the YAML string it resolves to -/
+theorem loadFileR_eq_resolved (doc : List (String × String)) (rk : String → String)
+    (hkeys : ∀ kv ∈ doc, yamlStr kv.1 = some (rk kv.1)) (acc : Option Cfg) :
+    doc.foldl (fun acc kv => acc.bind fun c => fileStepR c kv) acc =
+      (doc.map fun kv => (rk kv.1, kv.2)).foldl (fun acc kv => acc.bind fun c => fileSet c kv.1 kv.2) acc := by
+  induction doc generalizing acc with
+  | nil => rfl
+  | cons kv l ih =>
+    rw [List.map_cons, List.foldl_cons, List.foldl_cons]
+    have h : (acc.bind fun c => fileStepR c kv) = acc.bind fun c => fileSet c (rk kv.1) kv.2 := by
+      simp only [fileStepR, hkeys kv List.mem_cons_self, Option.bind_some]
+    rw [h]
+    exact ih (fun kv' hkv' => hkeys kv' (List.mem_cons_of_mem _ hkv')) _
+
+/-- `file_config_new_eq` WITHOUT the plain-word hypothesis on the keys: whenever every key scalar resolves to a YAML
+    string (quoted or plain; `rk` names what it resolves to), `FileConfig::new` is the model's `loadFile` on the entries
+    with the resolved keys — so `"port": 1` behaves exactly as `port: 1` -/
+theorem file_config_new_eq_resolved (doc : List (String × String)) (ncpu : Nat) (path : String) (hne : doc ≠ [])
+    (rk : String → String) (hkeys : ∀ kv ∈ doc, yamlStr kv.1 = some (rk kv.1)) :
+    (Gen.FileConfig.new [doc] ncpu path).toOption.map cfgOfFile =
+      (loadFile { numWorkers := ncpu } (doc.map fun kv => (rk kv.1, kv.2))).map eraseKms := by
+  have h := file_new_general doc ncpu path
+  unfold FOut loadFileR at h
+  rw [loadFileR_eq_resolved doc rk hkeys] at h
+  rw [h]
+  unfold loadFile
+  cases doc with
+  | nil => exact absurd rfl hne
+  | cons kv l => rfl
+
+/-- non-vacuity of `file_config_new_eq_resolved`: a quoted key -/
+example : (Gen.FileConfig.new [[("\"port\"", "1")]] 1 "").toOption.map cfgOfFile =
+    (loadFile { numWorkers := 1 } [("port", "1")]).map eraseKms :=
+  file_config_new_eq_resolved [("\"port\"", "1")] 1 "" (by simp) (fun _ => "port")
+    (by intro kv hkv; rw [List.mem_singleton.mp hkv]; decide)
+
 /-- a file with no document, or with more than one, is refused with an error -/
 theorem file_config_new_docs (docs : List (List (String × String))) (ncpu : Nat) (path : String) (h : docs.length ≠ 1) :
     Gen.FileConfig.new docs ncpu path = .err := by
